@@ -504,3 +504,42 @@ func (r *Run) CheckIgnoredTry(rule string, scope Scope) {
 	}
 	r.Pass(rule, "all-try-calls", "", fmt.Sprintf("%d discarded Try* results", n))
 }
+
+// CheckNoNewFilter (G5): the element filters of a loop (`if c { continue }`, or the equivalent `if !c { body }` as
+// the whole rest of the loop body) of every reference function are a subset of the reference's: a loop that used
+// to process every element and now skips some (identity components, the sender itself, already-seen ids) has
+// changed what it computes, even though no check was removed.
+func (r *Run) CheckNoNewFilter(rule, name string, scope Scope) {
+	r.Rule(rule, "no new element filter: in every function of the frozen reference ("+name+") each loop filter (`continue` under a condition, or the rest of the loop body nested under a condition) already exists in the reference; a loop that starts skipping elements is named")
+	ri, err := readRef(name)
+	if err != nil {
+		r.FailKind("anchor-unresolved", rule, "ref:"+name, "cannot read reference inventory: "+err.Error())
+		return
+	}
+	n := 0
+	for _, fd := range r.Prog.FuncsIn(scope) {
+		k := FuncKey(fd.Obj)
+		ref, known := ri.Functions[k]
+		if !known {
+			// functions without any reference atoms are not in the inventory file: known only if the function existed
+			// (unexported helpers have no entry of their own: their atoms are inventoried with their callers)
+			if r.G.known == nil || !r.G.known[k] || !fd.Obj.Exported() {
+				continue
+			}
+		}
+		refN := r.normInv(ref)
+		for sig, c := range r.normInv(scope.filterInv(r.G.InventoryOf(fd))) {
+			if !strings.HasPrefix(sig, "skip ") {
+				continue
+			}
+			n++
+			if refN[sig] == nil {
+				r.Fail(rule, k+" :: "+sig, r.Prog.RelPos(fd.Decl.Pos()), fmt.Sprintf("loop filter `%s` (×%d) does not exist in the reference: the loop now skips elements it used to process", sig, c.Total))
+			}
+		}
+		if known {
+			r.Pass(rule, k, r.Prog.RelPos(fd.Decl.Pos()), "no new loop filter")
+		}
+	}
+	r.Analysed[rule+" loop filters"] = n
+}
